@@ -12,11 +12,12 @@ use delaunay::geometry::traits::coordinate::Coordinate;
 
 type V<const D: usize> = Vertex<f64, i32, D>;
 
-/// canonical cell signature: sorted list of sorted coordinate tuples
+/// canonical cell signature: sorted list of sorted vertex identities (the input index carried as
+/// user data; NOT the coordinates, which a documented degeneracy retry may perturb by 1e-8)
 pub fn cell_sig<K, const D: usize>(dt: &delaunay::prelude::DelaunayTriangulation<K, i32, i32, D>) -> String
 where K: delaunay::geometry::kernel::Kernel<D, Scalar = f64> {
     let mut cells: Vec<String> = dt.cells().map(|(_, c)| {
-        let mut vs: Vec<String> = c.vertices().iter().filter_map(|k| dt.tds().get_vertex_by_key(*k)).map(|v| hxs(v.point().coords())).collect();
+        let mut vs: Vec<String> = c.vertices().iter().filter_map(|k| dt.tds().get_vertex_by_key(*k)).map(|v| format!("{:04}", v.data.unwrap_or(-1))).collect();
         vs.sort();
         vs.join("|")
     }).collect();
@@ -116,7 +117,10 @@ fn one<const D: usize>(id: &str, rng: &mut Rng, out: &mut Out, with_process: boo
                 let mut w = crate::hist::start_empty::<D>(1);
                 let mut ok = true;
                 for v in &vs { if catch(|| w.dt.insert(*v).is_ok()) != Ok(true) { ok = false; } }
-                if ok && cell_sig(&w.dt) != base { problems.push("general position: incremental insertion gives a different cell set than batch construction".into()); }
+                // "every successful, CERTIFIED construction": an incremental result that the
+                // library's own validate() does not certify carries no claim (lib.rs documents that
+                // incremental insertion may rarely leave a violation for explicit validation to find)
+                if ok && w.dt.validate().is_ok() && cell_sig(&w.dt) != base { problems.push("general position: incremental insertion gives a different cell set than batch construction".into()); }
             }
         }
         Ok(Err(e)) => out.obs("result", &format!("err {}", tri::err_kind(&e))),
